@@ -285,19 +285,19 @@ def _corpus_prop(pid, need, with_model=True, extra_assume=(), tables=(), minimiz
 
 
 _corpus_prop("C01", ["objective_calls", "generations_recorded", "rounds_with_sprouts", "engine:LOCAL", "engine:CMA",
-                     "engine:DE", "engine:SHADE", "engine:SEA", "engine:LHS", "engine:SOBOL"], with_model=False, minimize=True,
+                     "engine:DE", "engine:SHADE", "engine:SEA", "engine:LHS", "engine:SOBOL"], with_model=False, minimize=True, runapi=True,
              tables=("bounds",))
 _corpus_prop("C02", ["generations_recorded", "engine:LOCAL", "engine:CMA", "engine:DE", "snapshots_after_refusal"],
-             with_model=False, minimize=True)
+             with_model=False, minimize=True, runapi=True)
 _corpus_prop("C03", ["ev:gsc", "engine:LOCAL", "gsc:SingularEvalLimit", "gsc:WeightedEvalLimit"], minimize=True, runapi=True)
-_corpus_prop("C04", ["generations_recorded", "maximize", "minimize"], with_model=False, minimize=True)
+_corpus_prop("C04", ["generations_recorded", "maximize", "minimize"], with_model=False, minimize=True, runapi=True)
 _corpus_prop("C05", ["gsc_first_true_at:run", "gsc_first_true_at:step", "gsc_first_true_at:deme",
                      "gsc_true_with_demes_still_queued", "gsc:MetaepochLimit", "gsc:SingularEvalLimit",
                      "gsc:WeightedEvalLimit", "gsc:RootStopped", "gsc:AllStopped", "gsc:NoActiveNonroot", "gsc:Scripted"], minimize=True, runapi=True)
 _corpus_prop("C06", ["lsc_true", "ev:lsc", "rounds_with_sprouts", "hibernation_on", "hibernation_off"])
-_corpus_prop("C07", ["rounds_with_sprouts", "rounds_with_several_parents", "levels=3", "levels=1", "custom_deme_class"])
+_corpus_prop("C07", ["rounds_with_sprouts", "rounds_with_several_parents", "levels=3", "levels=1", "custom_deme_class"], runapi=True)
 _c08_base = _corpus_prop("C08", ["rounds_with_sprouts", "rounds_where_filters_removed", "rounds_with_several_parents", "lsc_true"],
-                         tables=("sprout",))
+                         tables=("sprout",), runapi=True)
 
 
 @prop("C08")
